@@ -115,6 +115,15 @@ impl SealCtx {
         self.seq = self.seq.wrapping_add(1);
         out
     }
+    /// like `unseal` but accepts whatever sequence number the message carries (the signature must still verify)
+    pub fn unseal_any_seq(&mut self, token: &[u8]) -> Option<Vec<u8>> {
+        if token.len() < 16 {
+            return None;
+        }
+        self.seq = u32::from_le_bytes([token[12], token[13], token[14], token[15]]);
+        self.unseal(token)
+    }
+
     /// verify + decrypt a sealed message from the peer; None if malformed or the signature does not verify
     pub fn unseal(&mut self, token: &[u8]) -> Option<Vec<u8>> {
         if token.len() < 16 || token[0..4] != [1, 0, 0, 0] {
